@@ -250,7 +250,8 @@ Definition y_pop (p : ypath) : outcome seg * ypath :=
       | popped :: _ =>
           let '(es, p2) := y_separator p1 in
           let removable := stringify es [popped] in
-          let prefixed := str1 (sepc_of es) ++ removable in
+          let prefixed := if sepopt_eqb es (Some Slash) then removable   (* "fix:" commit *)
+                          else str1 (sepc_of es) ++ removable in
           let now := y_orig p2 in
           let p3 :=
             if ends_with prefixed now
